@@ -99,7 +99,23 @@ func (x *Exec) newSpecial(e *Env, t types.Type) (Value, bool) { return nil, fals
 
 func (x *Exec) nativeMethod(e *Env, callee *types.Func, recv ast.Expr, n *ast.CallExpr) (Value, bool) {
 	pp, key := funcKey(callee)
+	if pp == "hash" || pp == "io" || strings.HasPrefix(key, "Hash.") || strings.HasPrefix(key, "Writer.") {
+		if rv, ok := x.peekValue(e, recv); ok {
+			if h, isHash := rv.(HashV); isHash {
+				return x.hashMethod(e, recv, h, callee.Name(), n)
+			}
+		}
+	}
 	switch pp + "." + key {
+	case "crypto.Hash.New":
+		fv, ok := e.expr(recv).(Scalar)
+		if !ok {
+			unsupported("crypto.Hash.New on %T", e.expr(recv))
+		}
+		return x.newHash("cryptohash", fv.T), true
+	case "crypto.Hash.Size":
+		fv := e.expr(recv).(Scalar)
+		return Scalar{x.simplifyWithPC(e.st, App("hashsize", IntS, fv.T)), intT}, true
 	case "strings.Builder.Grow":
 		e.expr(n.Args[0])
 		return TupleV{}, true
@@ -198,6 +214,26 @@ func (x *Exec) nativeFunc(e *Env, callee *types.Func, n *ast.CallExpr) (Value, b
 		}
 		r.Cap = r.Len
 		return r, true
+	case "crypto/sha512.New":
+		return x.newHash("sha512", nil), true
+	case "crypto/sha256.New":
+		return x.newHash("sha256", nil), true
+	case "golang.org/x/crypto/ripemd160.New":
+		return x.newHash("ripemd160", nil), true
+	case "crypto/hmac.New":
+		fv, ok := e.expr(n.Args[0]).(FuncV)
+		if !ok {
+			unsupported("hmac.New with a non-constant hash constructor")
+		}
+		pp2, k2 := funcKey(fv.Obj)
+		inner := map[string]string{"crypto/sha512.New": "sha512", "crypto/sha256.New": "sha256"}[pp2+"."+k2]
+		if inner == "" {
+			unsupported("hmac.New(%s.%s)", pp2, k2)
+		}
+		h := x.newHash("hmac_"+inner, nil)
+		h.Chunks = append(h.Chunks, x.chunkOf(e, e.expr(n.Args[1])))
+		h.NKey = 1
+		return h, true
 	case "golang.org/x/crypto/blake2b.Sum256":
 		return x.hashBytes(e, "blake2b256", 32, e.expr(n.Args[0]), callee.Type().(*types.Signature).Results().At(0).Type()), true
 	case "crypto/sha256.Sum256":
@@ -623,43 +659,11 @@ func immutableGlobal(files []*ast.File, info *types.Info, o *types.Var) bool {
 // of a statically known length the function takes the individual bytes as arguments, so equal
 // contents give equal digests without any array congruence reasoning.
 func (x *Exec) hashBytes(e *Env, name string, outLen int, v Value, rt types.Type) Value {
-	x.trusted["hash function "+name+" as an uninterpreted function of its input bytes"] = true
-	var s SliceV
-	switch c := v.(type) {
-	case SliceV:
-		s = c
-	case ArrayV:
-		a := x.alloc()
-		e.st.mem[a] = c
-		s = SliceV{Alloc: a, Off: IntC(0), Len: IntC(c.N), Cap: IntC(c.N), Elem: c.Elem, Nil: FalseT}
-	case PtrV:
-		cell := navigate(x.memCell(e.st, c.Alloc), c.Path).(ArrayV)
-		s = SliceV{Alloc: c.Alloc, path: c.Path, Off: IntC(0), Len: IntC(cell.N), Cap: IntC(cell.N), Elem: cell.Elem, Nil: FalseT}
-	default:
-		unsupported("hash of %T", v)
-	}
-	es := e.R().sortOf(byteT)
-	arr := x.memArr(e.st, s.Alloc, s.path)
-	ln := x.simplifyWithPC(e.st, s.Len)
-	out := ConstArr(e.zeroElem(byteT))
-	if n, ok := ln.Int64(); ok && n <= 128 {
-		var args []*Term
-		for i := int64(0); i < n; i++ {
-			args = append(args, Select(arr.T, Add(s.Off, IntC(i))))
-		}
-		for i := 0; i < outLen; i++ {
-			h := App(fmt.Sprintf("%s_%d", name, n), es, append([]*Term{IntC(int64(i))}, args...)...)
-			e.st.assume(e.R().rangeOf(h, byteT))
-			out = Store(out, IntC(int64(i)), h)
-		}
-	} else {
-		for i := 0; i < outLen; i++ {
-			h := App(name+"_seq", es, IntC(int64(i)), arr.T, s.Off, ln)
-			e.st.assume(e.R().rangeOf(h, byteT))
-			out = Store(out, IntC(int64(i)), h)
-		}
-	}
-	return ArrayV{T: out, N: int64(outLen), Elem: byteT, Typ: rt}
+	h := x.newHash(name, nil)
+	h.Chunks = []hchunk{x.chunkOf(e, v)}
+	d := x.digest(e, h)
+	arr := x.memArr(e.st, d.Alloc, nil)
+	return ArrayV{T: arr.T, N: int64(outLen), Elem: byteT, Typ: rt}
 }
 
 // simplifyWithPC rewrites a term with facts of the current path: symbols equal to constants are
@@ -774,4 +778,22 @@ func resolveIte(t *Term, holds func(*Term) bool, facts map[*Term]bool) *Term {
 		return t
 	}
 	return rebuild(t, args)
+}
+
+// peekValue evaluates a receiver expression that is a plain variable without side effects.
+func (x *Exec) peekValue(e *Env, recv ast.Expr) (Value, bool) {
+	id, ok := recv.(*ast.Ident)
+	if !ok {
+		return nil, false
+	}
+	info := e.info()
+	if info == nil {
+		return nil, false
+	}
+	o := info.Uses[id]
+	if o == nil {
+		return nil, false
+	}
+	v, ok := e.lookupVar(o)
+	return v, ok
 }
